@@ -95,8 +95,11 @@ func genC08(r *rand.Rand, run int, tier string) *vm.Plan {
 			h.add(vm.Op{K: "print", A: h.pick(h.toks)})
 		case x < 19: // keep using a token builder after it has been built
 			b := h.pick(blds)
-			if r.Intn(2) == 0 {
+			switch r.Intn(3) {
+			case 0:
 				h.add(vm.Op{K: "bldadd", A: b, Blk: blkp(g.Block(2, 1, 0))})
+			case 1: // only the context changes between two builds
+				h.add(vm.Op{K: "bldadd", A: b, Blk: &ref.Block{Context: fmt.Sprintf("context-%d", r.Intn(1000))}})
 			}
 			t := h.add(vm.Op{K: "bldbuild", A: b, Ent: entropy(r), Out: h.slot()})
 			h.toks = append(h.toks, t)
